@@ -118,6 +118,8 @@ func runC10(cfg *Config) *Report {
 		var innerArgs []*G
 		innerDelays := []time.Duration{}
 		towerDepth := 0
+		innerKind := ""
+		var sharedAt []int
 		switch r.Intn(6) {
 		case 0, 1:
 			if n >= 2 {
@@ -126,7 +128,18 @@ func runC10(cfg *Config) *Report {
 					innerArgs = append(innerArgs, gEq(ptB(0), ptAtom(pick(r, progAtoms))))
 					innerDelays = append(innerDelays, time.Duration(200+r.Intn(1800))*time.Microsecond)
 				}
-				nestDesc = fmt.Sprintf("with ONE value d = concurrent.DisjPlus(%s) (delays %v) used in two arguments", showGoals(innerArgs), innerDelays)
+				// the shared value is a concurrent combinator or one of mini's (a goal value of either package may be applied by
+				// several goroutines at once); in a wide list every argument uses it
+				innerKind = pick(r, []string{"concurrent.DisjPlus", "concurrent.DisjPlus", "mini.DisjPlusNoZzz", "mini.DisjPlus"})
+				k1 := r.Intn(n)
+				sharedAt = []int{k1, (k1 + 1 + r.Intn(n-1)) % n}
+				if wide && r.Intn(2) == 0 {
+					sharedAt = sharedAt[:0]
+					for k := 0; k < n; k++ {
+						sharedAt = append(sharedAt, k)
+					}
+				}
+				nestDesc = fmt.Sprintf("with ONE value d = %s(%s) (delays %v) used in %d arguments", innerKind, showGoals(innerArgs), innerDelays, len(sharedAt))
 			}
 		case 2:
 			nestKind = 2
@@ -147,14 +160,12 @@ func runC10(cfg *Config) *Report {
 		st0 := &micro.State{Substitutions: nil, Counter: uint64(nq)}
 		// the arguments as the model / the sequential reference see them
 		argsM := append([]*G{}, args...)
-		k1, k2 := 0, 0
 		var tower *G
 		switch nestKind {
 		case 1:
-			k1 = r.Intn(n)
-			k2 = (k1 + 1 + r.Intn(n-1)) % n
-			argsM[k1] = gConj(args[k1], gDisjPlus(false, innerArgs...))
-			argsM[k2] = gConj(args[k2], gDisjPlus(false, innerArgs...))
+			for _, k := range sharedAt {
+				argsM[k] = gConj(args[k], gDisjPlus(innerKind == "mini.DisjPlus", innerArgs...))
+			}
 		case 2:
 			tower = gEq(ptB(0), ptAtom(progAtoms[0]))
 			for d := 1; d <= towerDepth; d++ {
@@ -177,9 +188,18 @@ func runC10(cfg *Config) *Report {
 				for k, a := range innerArgs {
 					in[k] = delayed(build(a, env), innerDelays[k])
 				}
-				inner := concurrent.DisjPlus(in...) // ONE goal value
-				gs[k1] = micro.Conj(gs[k1], inner)
-				gs[k2] = micro.Conj(gs[k2], inner)
+				var inner micro.Goal // ONE goal value
+				switch innerKind {
+				case "mini.DisjPlusNoZzz":
+					inner = mini.DisjPlusNoZzz(in...)
+				case "mini.DisjPlus":
+					inner = mini.DisjPlus(in...)
+				default:
+					inner = concurrent.DisjPlus(in...)
+				}
+				for _, k := range sharedAt {
+					gs[k] = micro.Conj(gs[k], inner)
+				}
 			case 2:
 				t := build(gEq(ptB(0), ptAtom(progAtoms[0])), env)
 				for d := 1; d <= towerDepth; d++ {
